@@ -30,6 +30,7 @@ structure HeadInfo where
   nrefs : Nat               -- number of context variables of the flow that hold that Action object
   isStart : Bool            -- the event is the `Start…Action` event of that action (generating it sets flow_scope_count := 1)
   catchLbl : Bool           -- head.catch_pattern_failure_label is non-empty
+  owns : Bool               -- the action uid is in the flow's `action_uids` (false: the flow only holds a reference to an action of another flow)
 deriving DecidableEq, Repr, Inhabited
 
 inductive Fate where
@@ -173,11 +174,42 @@ def pickedEffect (w : HeadInfo) (t : ActTbl) : ActTbl :=
 
 /-- the co-winner branch: both events are ActionEvents with an action uid.
     REPAIRED behaviour (fixes/C05-shared-action-cowin.diff): nothing to re-point when both heads already hold the
-    same action; the code as it is runs `del state.actions[uid]` on the shared action (`cowinEffectAsIs`). -/
+    same action; the code as it is runs `del state.actions[uid]` on the shared action (`cowinEffectAsIs`).
+    REPAIRED behaviour (fixes/C05-cowin-on-borrowed-action.diff): nothing to re-point either when the competing flow does not
+    OWN its action (`owns = false`: the uid is not in `action_uids`); the code as it is raises `ValueError` in
+    `action_uids.index(...)` after having re-pointed the context (`borrowedRaisesAsIs`). -/
 def cowinEffect (w h : HeadInfo) (t : ActTbl) : ActTbl :=
   match w.act, h.act with
-  | some b, some a => if a = b then t else del a (incr b h.nrefs t)
+  | some b, some a => if a = b then t else if h.owns then del a (incr b h.nrefs t) else t
   | _, _ => t
+
+/-- `competing_flow_state.action_uids.index(competing_event.action_uid)` of the unpatched source raises `ValueError`:
+    the co-winner branch is entered for two different action instances and the competing flow does not own its action -/
+def borrowedRaisesAsIs (w h : HeadInfo) : Bool :=
+  match w.act, h.act with
+  | some b, some a => a != b && !h.owns
+  | _, _ => false
+
+/-- outcome of one co-winner step of the source as it is -/
+inductive StepRes where
+  | ok (t : ActTbl)
+  | valueError      -- `list.index`: the uid is not in `action_uids`
+  | keyError        -- `state.actions[uid]` / `del state.actions[uid]`: the uid is not in `state.actions`
+deriving DecidableEq, Repr
+
+/-- The co-winner branch of the source AS IT IS, with its three look-ups that can raise:
+    `state.actions[winning_event.action_uid]` (inside the context loop, only when the competing flow holds a reference),
+    `competing_flow_state.action_uids.index(competing uid)` (`ValueError` when the flow does not own the action) and
+    `del state.actions[competing uid]` (`KeyError` when it is gone).  (The uid-equality guard of the first repair is in.) -/
+def cowinStepAsIs (w h : HeadInfo) (t : ActTbl) : StepRes :=
+  match w.act, h.act with
+  | some b, some a =>
+    if a = b then .ok t
+    else if h.nrefs > 0 && (scopeOf b t).isNone then .keyError
+    else if !h.owns then .valueError
+    else if (scopeOf a t).isNone then .keyError
+    else .ok (del a (incr b h.nrefs t))
+  | _, _ => .ok t
 
 /-- the co-winner branch of the unpatched source -/
 def cowinEffectAsIs (w h : HeadInfo) (t : ActTbl) : ActTbl :=
@@ -192,9 +224,9 @@ def applyFates : Option HeadInfo → List (HeadInfo × Fate) → ActTbl → ActT
   | some w, (h, .cowin) :: r, t => applyFates (some w) r (cowinEffect w h t)
   | cw, _ :: r, t => applyFates cw r t
 
-/-- number of context references re-pointed to the winner's action: Σ nrefs over the co-winners that hold an action -/
+/-- number of context references re-pointed to the winner's action: Σ nrefs over the co-winners that own an action -/
 def cowinRefs (fs : List (HeadInfo × Fate)) : Nat :=
-  ((fs.filter (fun p => p.2 == .cowin && p.1.act.isSome)).map (·.1.nrefs)).sum
+  ((fs.filter (fun p => p.2 == .cowin && p.1.act.isSome && p.1.owns)).map (·.1.nrefs)).sum
 
 /-- (flow uid, old action uid, new action uid) replacements in `action_uids` / context -/
 def repoints : Option HeadInfo → List (HeadInfo × Fate) → List (Nat × Nat × Nat)
@@ -202,7 +234,7 @@ def repoints : Option HeadInfo → List (HeadInfo × Fate) → List (Nat × Nat 
   | _, (w, .picked) :: r => repoints (some w) r
   | some w, (h, .cowin) :: r =>
     match w.act, h.act with
-    | some b, some a => if a = b then repoints (some w) r else (h.flow, a, b) :: repoints (some w) r
+    | some b, some a => if a = b || !h.owns then repoints (some w) r else (h.flow, a, b) :: repoints (some w) r
     | _, _ => repoints (some w) r
   | cw, _ :: r => repoints cw r
 
